@@ -1290,7 +1290,7 @@ pub fn execute(s: &Scenario) -> Result<CaseReport, Failure> {
   let mut rx: ManuallyDrop<Vec<Box<dyn Rx>>> = ManuallyDrop::new(Vec::new());
   let pfail = |stage: &str, p: Box<dyn std::any::Any + Send>| {
     let msg = crate::panic_msg(&p);
-    let prop = if stage == "teardown" { "C09" } else { "C01" };
+    let prop = if stage == "teardown" { crate::panic_prop("C09", &["C04", "C09"]) } else { crate::panic_prop("C01", &["C01", "C02", "C03", "C04", "C09"]) };
     Failure::new(prop, format!("E1/{}/panic_{}/{}", s.flavour.name(), stage, crate::panic_site(&msg)), format!("panic inside the channel during {stage}: {msg}"))
   };
   let r = catch_unwind(AssertUnwindSafe(|| run_ops(s, &reg, &mut tx, &mut rx)));
